@@ -28,7 +28,7 @@ theorem tinyOK_of_eq {s s' : St} (hT : TinyOK s) (h1 : s'.nextOut = s.nextOut) (
 /-- a state whose cursor has just been set to the start of `storage_` -/
 theorem tinyOK_dyn {s' : St} {off : Nat} (h1 : s'.nextOut = .dyn off)
     (hb : s'.streamState = .metadataBody → s'.lastBytesBits = 0 ∧ s'.inputPos = s'.lastFlushPos) : TinyOK s' :=
-  ⟨fun o ho => by rw [h1] at ho; cases ho, fun hn => by rw [h1] at hn; cases hn, hb⟩
+  ⟨fun o ho => (by rw [h1] at ho; cases ho), fun hn => (by rw [h1] at hn; cases hn), hb⟩
 
 /-- **the padding block never runs past `tiny_buf_`**: under `TinyOK`, when a padding block is due
 (`lbb ≠ 0`) the `tiny_buf_` bound check of `inject_byte_padding_block` cannot fire -/
@@ -104,13 +104,30 @@ theorem tinyOK_pad {s s' : St} (hT : TinyOK s) (hl : s.lastBytesBits ≤ 14) (hl
     rw [hs'] at hb
     exact absurd hb hst
 
-/-- handing out pending bytes keeps `TinyOK` and never indexes past `tiny_buf_` -/
-theorem tinyOK_push {s s' : St} {io io' : Io} {b : Bool} (hT : TinyOK s) (hl : s.lastBytesBits ≤ 14)
-    (hst : s.streamState = .flushRequested → True)
-    (h : injectFlushOrPushOutput s io = .ok (s', io', b)) : TinyOK s' := by
+/-- shape of a push (the non-padding branch that moved bytes or declined) -/
+theorem push_shape {s s' : St} {io io' : Io} {b : Bool}
+    (hc : ¬ (s.streamState = .flushRequested ∧ s.lastBytesBits ≠ 0))
+    (h : injectFlushOrPushOutput s io = .ok (s', io', b)) :
+    (s' = s) ∨
+    (s'.nextOut = nextOutIncrement s.nextOut (min s.pending.length io.availOut)
+      ∧ s'.pending = s.pending.drop (min s.pending.length io.availOut)
+      ∧ s'.lastBytesBits = s.lastBytesBits ∧ s'.streamState = s.streamState
+      ∧ s'.inputPos = s.inputPos ∧ s'.lastFlushPos = s.lastFlushPos) := by
   unfold injectFlushOrPushOutput at h
-  split at h
-  · rename_i hc
+  rw [if_neg hc] at h
+  simp only at h
+  split_all h
+  all_goals first
+    | (simp at h; done)
+    | (simp only [Out.ok.injEq, Prod.mk.injEq] at h; obtain ⟨rfl, _, _⟩ := h; right; exact ⟨rfl, rfl, rfl, rfl, rfl, rfl⟩)
+    | (simp only [Out.ok.injEq, Prod.mk.injEq] at h; obtain ⟨rfl, _, _⟩ := h; left; rfl)
+
+/-- handing out pending bytes keeps `TinyOK` -/
+theorem tinyOK_push {s s' : St} {io io' : Io} {b : Bool} (hT : TinyOK s) (hl : s.lastBytesBits ≤ 14)
+    (h : injectFlushOrPushOutput s io = .ok (s', io', b)) : TinyOK s' := by
+  by_cases hc : s.streamState = .flushRequested ∧ s.lastBytesBits ≠ 0
+  · unfold injectFlushOrPushOutput at h
+    rw [if_pos hc] at h
     split at h
     · rename_i s1 hp
       simp only [Out.ok.injEq, Prod.mk.injEq] at h
@@ -118,41 +135,33 @@ theorem tinyOK_push {s s' : St} {io io' : Io} {b : Bool} (hT : TinyOK s) (hl : s
       exact tinyOK_pad hT hl hc.2 (by rw [hc.1]; simp) hp
     · simp at h
     · simp at h
-  · simp only at h
-    split at h
-    · split at h
-      · simp at h
-      · rename_i hcap
-        simp only [Out.ok.injEq, Prod.mk.injEq] at h
-        obtain ⟨rfl, _, _⟩ := h
-        have hle : min s.pending.length io.availOut ≤ s.pending.length := Nat.min_le_left _ _
-        refine ⟨?_, ?_, ?_⟩
-        · intro off ho
-          simp only at ho ⊢
-          cases hno : s.nextOut with
-          | none => rw [hno] at ho; simp [nextOutIncrement] at ho
-          | dyn o => rw [hno] at ho; simp [nextOutIncrement] at ho
-          | tiny o =>
-            rw [hno] at ho
-            simp only [nextOutIncrement, NextOut.tiny.injEq] at ho
-            obtain ⟨f1, f2⟩ := hT.fits o hno
-            have hsmall : o + min s.pending.length io.availOut < two32 := by unfold two32; omega
-            rw [Nat.mod_eq_of_lt hsmall] at ho
-            subst ho
-            simp only [List.length_drop]
-            refine ⟨by omega, ?_⟩
-            intro hne
-            exact f2 (by omega)
-        · intro hno
-          simp only at hno ⊢
-          cases hno' : s.nextOut with
-          | none => have := hT.none hno'; simp only [List.length_drop]; omega
-          | dyn o => rw [hno'] at hno; simp [nextOutIncrement] at hno
-          | tiny o => rw [hno'] at hno; simp [nextOutIncrement] at hno
-        · intro hb; exact hT.body hb
-    · simp only [Out.ok.injEq, Prod.mk.injEq] at h
-      obtain ⟨rfl, _, _⟩ := h
-      exact hT
+  · rcases push_shape hc h with rfl | ⟨h1, h2, h3, h4, h5, h6⟩
+    · exact hT
+    · have hle : min s.pending.length io.availOut ≤ s.pending.length := Nat.min_le_left _ _
+      refine ⟨?_, ?_, ?_⟩
+      · intro off ho
+        rw [h1] at ho
+        cases hno : s.nextOut with
+        | none => rw [hno] at ho; simp [nextOutIncrement] at ho
+        | dyn o => rw [hno] at ho; simp [nextOutIncrement] at ho
+        | tiny o =>
+          rw [hno] at ho
+          simp only [nextOutIncrement, NextOut.tiny.injEq] at ho
+          obtain ⟨f1, f2⟩ := hT.fits o hno
+          have hsmall : o + min s.pending.length io.availOut < two32 := by unfold two32; omega
+          rw [Nat.mod_eq_of_lt hsmall] at ho
+          subst ho
+          rw [h2, h3, List.length_drop]
+          refine ⟨by omega, ?_⟩
+          intro hne
+          exact f2 (by omega)
+      · intro hno
+        rw [h1] at hno
+        cases hno' : s.nextOut with
+        | none => have := hT.none hno'; rw [h2, List.length_drop]; omega
+        | dyn o => rw [hno'] at hno; simp [nextOutIncrement] at hno
+        | tiny o => rw [hno'] at hno; simp [nextOutIncrement] at hno
+      · intro hb; rw [h3, h5, h6]; exact hT.body (h4 ▸ hb)
 
 /-- the `tiny_buf_` capacity check of the push never fires under `TinyOK` -/
 theorem push_tiny_safe {s : St} {io : Io} {off : Nat} (hT : TinyOK s) (hno : s.nextOut = .tiny off) :
@@ -173,5 +182,99 @@ theorem take_tiny_safe {s : St} {off : Nat} (hT : TinyOK s) (hno : s.nextOut = .
 theorem md_header_tiny_safe {s : St} (hl : s.lastBytesBits ≤ 14) :
     ¬ ((bitsOf s.lastBytesBits s.lastBytes).length + 6) / 8 + 8 > 16 := by
   rw [bitsOf_length]; omega
+
+/-! ### `encode_data` and the output cursor -/
+
+/-- relation between a state inside `encode_data`, the state it started from and
+`catable_header_size`: the cursor has been reset to `storage_[0]`, or nothing has been written -/
+def OutCoh (s0 s : St) (hdr : Nat) : Prop :=
+  s.nextOut = .dyn 0 ∨ (s.nextOut = s0.nextOut ∧ hdr = 0 ∧ s.lastBytesBits = s0.lastBytesBits)
+
+theorem encMagic_outCoh (s : St) (w0 : Writer) : OutCoh s (encMagic s w0).1 (encMagic s w0).2.2 := by
+  unfold encMagic
+  split
+  · exact Or.inl rfl
+  · exact Or.inr ⟨rfl, rfl, rfl⟩
+
+theorem encPrelude_outCoh {s0 s s' : St} {w w' : Writer} {hdr hdr' bytes : Nat} (hc : OutCoh s0 s hdr)
+    (h : encPrelude s w hdr bytes = .ok (s', w', hdr')) : OutCoh s0 s' hdr' := by
+  unfold encPrelude at h
+  simp only at h
+  split_all h
+  all_goals first
+    | (simp at h; done)
+    | (simp only [Out.ok.injEq, Prod.mk.injEq] at h; obtain ⟨rfl, rfl, rfl⟩ := h
+       rcases hc with a | ⟨a, b, c⟩
+       · exact Or.inl a
+       · exact Or.inr ⟨a, b, c⟩)
+    | (simp only [Out.ok.injEq, Prod.mk.injEq] at h; obtain ⟨rfl, rfl, rfl⟩ := h; exact Or.inl rfl)
+
+theorem encPayload_out {s0 s s' : St} {ans : Ans} {w0 w : Writer} {hdr : Nat} {il ff res : Bool} (hc : OutCoh s0 s hdr)
+    (h : encPayload s ans w0 w hdr il ff = .ok (s', res)) :
+    s'.nextOut = .dyn 0 ∨ (s'.nextOut = s0.nextOut ∧ s'.pending.length = 0 ∧ s'.lastBytesBits = s0.lastBytesBits) := by
+  unfold encPayload at h
+  simp only at h
+  split_all h
+  all_goals first
+    | (simp at h; done)
+    | (simp only [Out.ok.injEq, Prod.mk.injEq] at h; obtain ⟨rfl, rfl⟩ := h
+       rcases hc with a | ⟨a, b, c⟩
+       · exact Or.inl a
+       · right; subst b; exact ⟨a, by simp, c⟩)
+    | (simp only [Out.ok.injEq, Prod.mk.injEq] at h; obtain ⟨rfl, rfl⟩ := h; exact Or.inl rfl)
+
+theorem encRest_out {s0 : St} {m : St × Writer × Nat} {ans : Ans} {w0 : Writer} {bytes : Nat} {il ff res : Bool} {s' : St}
+    (hc : OutCoh s0 m.1 m.2.2) (h : encRest m ans w0 bytes il ff = .ok (s', res)) :
+    s'.nextOut = .dyn 0 ∨ (s'.nextOut = s0.nextOut ∧ s'.pending.length = 0 ∧ s'.lastBytesBits = s0.lastBytesBits) := by
+  unfold encRest at h
+  split at h
+  · simp at h
+  · simp at h
+  · rename_i s2 w hdr hpre
+    exact encPayload_out (encPrelude_outCoh hc hpre) h
+
+/-- after a successful `encode_data` the cursor is at `storage_[0]`, or nothing is pending and
+cursor and carry are the old ones -/
+theorem encodeData_out {o : Oracle} {s s' : St} {site : Nat} {il ff : Bool} {req : Req}
+    (h : encodeData o s site il ff = .ok (s', true, req)) :
+    s'.nextOut = .dyn 0 ∨ (s'.nextOut = s.nextOut ∧ s'.pending.length = 0 ∧ s'.lastBytesBits = s.lastBytesBits) := by
+  obtain ⟨_, hc⟩ := encodeData_ok_cases h
+  rcases hc with ⟨_, hh, _⟩ | ⟨_, _, hh, _⟩ | ⟨_, _, hrest⟩
+  · simp at hh
+  · simp at hh
+  · obtain ⟨_, _, _, _, _, e6, _, _, e9, _⟩ := encEntry_fields s il
+    have hm := encMagic_outCoh (encEntry s il) s.carry
+    rcases encRest_out hm hrest with h1 | ⟨h1, h2, h3⟩
+    · exact Or.inl h1
+    · exact Or.inr ⟨h1.trans e6, h2, h3.trans e9⟩
+
+theorem tinyOK_encode {o : Oracle} {s s' : St} {site : Nat} {il ff : Bool} {req : Req} (hT : TinyOK s)
+    (hst : s.streamState ≠ .metadataBody)
+    (h : encodeData o s site il ff = .ok (s', true, req)) : TinyOK s' := by
+  obtain ⟨f, _⟩ := encodeData_frame h
+  rw [St.frame_eq_iff] at f
+  have hst' : s'.streamState ≠ .metadataBody := by rw [f.2.2.2.1]; exact hst
+  rcases encodeData_out h with h1 | ⟨h1, h2, h3⟩
+  · exact tinyOK_dyn h1 (fun hb => absurd hb hst')
+  · refine ⟨?_, ?_, fun hb => absurd hb hst'⟩
+    · intro off ho
+      rw [h1] at ho
+      have := (hT.fits off ho).1
+      rw [h2]
+      exact ⟨by omega, fun hne => absurd rfl hne⟩
+    · intro _; exact h2
+
+theorem tinyOK_mark {s : St} (hT : TinyOK s) (il ff : Bool) (hst : s.streamState = .processing) :
+    TinyOK (markAfterEncode s il ff) := by
+  obtain ⟨_, k2, _, _, k5, _, _, k8, k9, k10⟩ := markAfterEncode_fields s il ff
+  have hno : (markAfterEncode s il ff).nextOut = s.nextOut := by
+    unfold markAfterEncode
+    cases il <;> cases ff <;> rfl
+  refine ⟨?_, ?_, ?_⟩
+  · intro off ho; rw [k8, k9]; exact hT.fits off (hno ▸ ho)
+  · intro hn; rw [k8]; exact hT.none (hno ▸ hn)
+  · intro hb
+    rw [k10, hst] at hb
+    cases il <;> cases ff <;> simp at hb
 
 end BV.Stream
